@@ -739,7 +739,7 @@ static void do_file (void)
 {	/* file fid new | copy src | hex HEX | load path [off len] | trunc n | setbyte off val */
 	int fid = (int) tokll (1) ; MEMFILE *mf = &files [fid] ; mf->used = 1 ;
 	const char *k = toks [2] ;
-	if (strcmp (k, "save")) path_remove (fid) ;
+	if (strcmp (k, "save") && strcmp (k, "dump")) path_remove (fid) ;
 	if (!strcmp (k, "new")) mf->len = 0 ;
 	else if (!strcmp (k, "copy"))
 	{	MEMFILE *src = &files [tokll (3)] ; mf_reserve (mf, src->len + 1) ; if (src->len) memcpy (mf->data, src->data, src->len) ; mf->len = src->len ; }
@@ -757,6 +757,17 @@ static void do_file (void)
 		}
 	else if (!strcmp (k, "trunc")) { long long n = tokll (3) ; if (n < mf->len) mf->len = n ; }
 	else if (!strcmp (k, "setbyte")) { long long o = tokll (3) ; if (o >= 0 && o < mf->len) mf->data [o] = (unsigned char) tokll (4) ; }
+	else if (!strcmp (k, "patch"))
+	{	long long o = tokll (3) ; const char *hx = ntok > 4 ? toks [4] : "" ; long long n = (long long) strlen (hx) / 2 ;
+		mf_reserve (mf, o + n + 1) ;
+		for (long long i = 0 ; i < n ; i++) { unsigned v ; sscanf (hx + 2 * i, "%2x", &v) ; mf->data [o + i] = (unsigned char) v ; }
+		if (o + n > mf->len) mf->len = o + n ;
+		}
+	else if (!strcmp (k, "dump"))
+	{	long long o = tokll (3), n = tokll (4) ; if (n < 0 || o + n > mf->len) n = mf->len - o ; if (n < 0) n = 0 ;
+		ev_begin ("filedump", -1) ; ev_int ("fid", fid) ; ev_int ("off", o) ; ev_bytes ("bytes", mf->data + o, n) ; ev_end () ;
+		return ;
+		}
 	else if (!strcmp (k, "save"))
 	{	FILE *f = fopen (toks [3], "wb") ; if (f) { fwrite (mf->data, 1, mf->len, f) ; fclose (f) ; } return ; }
 	ev_begin ("file", -1) ; ev_int ("fid", fid) ; ev_str ("kind", k) ; if (!strcmp (k, "copy")) ev_int ("src", tokll (3)) ;
